@@ -29,7 +29,7 @@ def gen_treeinfo(rng, R=None):
                     "short": rng.choice(["Fedora", "RHEL"]),
                     "version": rng.choice(["22", "7.9", "Rawhide", "6.5"]), "is_layered": layered},
         "base_product": {"name": "Base", "short": "B", "version": rng.choice(["7", "Rawhide"])} if layered else None,
-        "tree": {"arch": arch, "build_timestamp": rng.choice([1440000000, 1, rng.randint(10 ** 8, 2 * 10 ** 9)]),
+        "tree": {"arch": arch, "build_timestamp": rng.choice([1440000000, 1, rng.randint(10 ** 8, 2 * 10 ** 9), -1]),
                  "platforms": sorted(set(rng.sample([arch, "xen", "ppc64"], rng.randint(0, 3))))},
         "variants": {}, "images": {}, "stage2": {"mainimage": None, "instimage": None},
         "media": {"discnum": None, "totaldiscs": None}, "checksums": {},
@@ -52,7 +52,8 @@ def gen_treeinfo(rng, R=None):
     if rng.random() < 0.5:
         d["stage2"]["mainimage"] = "images/install.img"
         if rng.random() < 0.3:
-            d["stage2"]["instimage"] = "images/inst.img"
+            d["stage2"]["instimage"] = rng.choice(["images/inst.img", "images/inst.img", d["stage2"]["mainimage"], "/images/minstg2.img",
+                                                   "/mnt/tree/os/images/minstg2.img"])
     if rng.random() < 0.4:
         d["media"] = rng.choice([{"discnum": rng.randint(1, 3), "totaldiscs": 3}, {"discnum": rng.randint(1, 3), "totaldiscs": 3},
                                  {"discnum": 0, "totaldiscs": 2}, {"discnum": 3, "totaldiscs": 0}])
@@ -273,4 +274,18 @@ def impl_general(case):
         reloaded = exc_result(e)
     except Exception as e:
         reloaded = ["err", "Other:" + type(e).__name__]
-    return ["ok", text, seen, reloaded]
+    # "every choice of main variant": also a nested one (looked up by its UID)
+    nested = None
+    for top in sorted(case["desc"]["variants"]):
+        kids = case["desc"]["variants"][top]["children"]
+        if kids:
+            kid = kids[sorted(kids)[0]]
+            try:
+                g = mini_ini(_dumps(ti, kid["uid"])).get("general", {})
+                nested = [kid["uid"], kid["paths"], {k: g.get(k) for k in ("variant", "packagedir", "repository")}]
+            except EXC as e:
+                nested = [kid["uid"], kid["paths"], exc_result(e)]
+            except Exception as e:
+                nested = [kid["uid"], kid["paths"], ["err", "Other:" + type(e).__name__]]
+            break
+    return ["ok", text, seen, reloaded, nested]
